@@ -4,19 +4,19 @@ CONSTANTS
   LC = {"unset", "zero", "valid", "neg"}
   ND = {"unset", "zero", "valid", "bad"}
   NC = {"unset", "zero", "valid", "neg"}
-  CBS = {"unset", "empty", "A", "B", "ws", "bad"}
-  CAS = {"unset", "empty", "A", "ws", "bad", "badonly"}
-  CBD = {"unset", "A", "B", "bad"}
-  PBL = {"unset", "empty", "A", "ws", "bad"}
+  CBS = {"unset", "empty", "A", "B", "ws", "bad", "badfirst"}
+  CAS = {"unset", "empty", "A", "ws", "bad", "badfirst", "badonly"}
+  CBD = {"unset", "A", "B", "bad", "badfirst"}
+  PBL = {"unset", "empty", "A", "ws", "bad", "badfirst"}
   GEO = {"unset", "empty", "missing", "garbage"}
   WK = {"unset", "zero", "valid"}
   PUB = {"unset", "true"}
   FK = {"ok", "syntax", "wrongtype", "unreadable"}
   SF = {"S1", "S2", "malformed", "missing", "badgen"}
-  RCBS = {"unset", "empty", "A", "B", "ws", "bad"}
-  RCAS = {"unset", "empty", "A", "ws", "bad", "badonly"}
-  RCBD = {"unset", "A", "B", "bad"}
-  RPBL = {"unset", "empty", "A", "ws", "bad"}
+  RCBS = {"unset", "empty", "A", "B", "ws", "bad", "badfirst"}
+  RCAS = {"unset", "empty", "A", "ws", "bad", "badfirst", "badonly"}
+  RCBD = {"unset", "A", "B", "bad", "badfirst"}
+  RPBL = {"unset", "empty", "A", "ws", "bad", "badfirst"}
   RGEO = {"unset", "empty", "missing"}
   RPUB = {"unset", "true"}
   RFK = {"ok", "syntax", "wrongtype", "unreadable"}
